@@ -203,38 +203,141 @@ Section Spec.
 
   (* ---- 2. mandated headers ---- *)
 
-  (* the descriptor (and content, for a reader) the backend promised for this response: the
-     last successful content-bearing call *)
-  Definition content_of (e : ev) : option (desc * option bytes) :=
-    match e with
-    | ECall (GetBlob _ _) (Ok v) | ECall (GetBlobRange _ _ _ _) (Ok v)
-    | ECall (GetManifest _ _) (Ok v) | ECall (GetTag _ _) (Ok v) => Some (desc_of v, Some (data_of v))
-    | ECall (ResolveBlob _ _) (Ok v) | ECall (ResolveManifest _ _) (Ok v)
-    | ECall (ResolveTag _ _) (Ok v) => Some (desc_of v, None)
-    | _ => None
-    end.
-  Fixpoint last_content (tr : list ev) (acc : option (desc * option bytes)) : option (desc * option bytes) :=
+  (* the last event of the trace about which [f] says something *)
+  Fixpoint last_of {A} (f : ev -> option A) (tr : list ev) (acc : option A) : option A :=
     match tr with
     | [] => acc
-    | e :: t => last_content t (match content_of e with Some x => Some x | None => acc end)
+    | e :: t => last_of f t (match f e with Some x => Some x | None => acc end)
     end.
 
+  (* the descriptor (and content, for a reader) the backend promised for this response, and the
+     digest it was asked for when it was asked by digest: the last successful content-bearing
+     call *)
+  Definition content_of (e : ev) : option (desc * option bytes * option bytes) :=
+    match e with
+    | ECall (GetBlob _ dg) (Ok v) | ECall (GetBlobRange _ dg _ _) (Ok v)
+    | ECall (GetManifest _ dg) (Ok v) => Some (desc_of v, Some (data_of v), Some dg)
+    | ECall (GetTag _ _) (Ok v) => Some (desc_of v, Some (data_of v), None)
+    | ECall (ResolveBlob _ dg) (Ok v) | ECall (ResolveManifest _ dg) (Ok v) => Some (desc_of v, None, Some dg)
+    | ECall (ResolveTag _ _) (Ok v) => Some (desc_of v, None, None)
+    | _ => None
+    end.
+  Definition last_content (tr : list ev) : option (desc * option bytes * option bytes) :=
+    last_of content_of tr None.
+
+  (* Docker-Content-Digest names the content: the digest of the descriptor the backend
+     returned, or the digest the content was asked for by *)
+  Definition dcd_value_ok (d : desc) (asked : option bytes) (v : bytes) : bool :=
+    beqb v (d_digest d) || match asked with Some a => beqb v a | None => false end.
+
+  (* -- uploads: what the backend said in this exchange about the upload -- *)
   Definition upload_open (e : ev) : bool :=
     match e with
     | ECall (PushBlobChunked _ _) (Ok _) | ECall (PushBlobChunkedResume _ _ _ _) (Ok _) => true
     | _ => false
     end.
+  Definition upload_fresh (e : ev) : bool :=
+    match e with ECall (PushBlobChunked _ _) (Ok _) => true | _ => false end.
+  (* the repository the upload was opened in *)
+  Definition upload_repo_of (e : ev) : option bytes :=
+    match e with
+    | ECall (PushBlobChunked r _) (Ok _) | ECall (PushBlobChunkedResume r _ _ _) (Ok _) => Some r
+    | _ => None
+    end.
+  (* BlobWriter.ID() *)
+  Definition upload_id_of (e : ev) : option bytes :=
+    match e with ECall (WID _) (Ok v) => Some (str_of v) | _ => None end.
+  (* BlobWriter.Size(); the method has no error result: [Some None] is an answer that is not a size *)
+  Definition upload_size_of (e : ev) : option (option Z) :=
+    match e with
+    | ECall (WSize _) (Ok v) => Some (Some (n_of v))
+    | ECall (WSize _) _ => Some None
+    | _ => None
+    end.
 
-  (* "0-N" with N >= 0 *)
-  Definition range_value_ok (v : option bytes) : bool :=
+  (* where the upload continues: the upload-info URL of the repository it was opened in and
+     of the ID its writer reported *)
+  Definition upload_location (repo id : bytes) : bytes :=
+    s "/v2/" ++ repo ++ s "/blobs/uploads/" ++ b64u_encode id.
+  Definition upload_location_ok (tr : list ev) (v : option bytes) : bool :=
+    match last_of upload_repo_of tr None, last_of upload_id_of tr None with
+    | Some r, Some id => option_eqb beqb v (Some (upload_location r id))
+    | _, _ => false
+    end.
+
+  (* how far it got: "0-N" where N is the offset of the last byte held (0 when nothing is
+     held), for a size that is a non-negative int64 value; any other answer is outside the
+     conventions and only the form is required *)
+  Definition int64_max : Z := 9223372036854775807.
+  Definition range_end_for (size : Z) : option Z :=
+    if ((0 <=? size) && (size <=? int64_max))%Z then Some (Z.max 0 (size - 1)) else None.
+
+  (* "0-N" with N >= 0, and N the expected one when one is expected *)
+  Definition range_value_ok (expect : option Z) (v : option bytes) : bool :=
     match v with
     | Some a => match cut_byte 45 a with
                 | Some (x, y) => match parse_dec x, parse_dec y with
-                                 | Some 0%Z, Some n => (0 <=? n)%Z
+                                 | Some 0%Z, Some n =>
+                                     (0 <=? n)%Z && match expect with Some m => (n =? m)%Z | None => true end
                                  | _, _ => false
                                  end
                 | None => false
                 end
+    | None => false
+    end.
+
+  (* the size is the one the writer reported last in this exchange; when it was not asked, the
+     upload must be one opened afresh in this exchange, which holds nothing *)
+  Definition upload_range_ok (tr : list ev) (v : option bytes) : bool :=
+    match last_of upload_size_of tr None with
+    | Some (Some size) => range_value_ok (range_end_for size) v
+    | Some None => range_value_ok None v
+    | None => existsb upload_fresh tr && range_value_ok (Some 0%Z) v
+    end.
+
+  (* -- created content -- *)
+  Definition blob_location (repo dg : bytes) : bytes := s "/v2/" ++ repo ++ s "/blobs/" ++ dg.
+  Definition manifest_location (repo dg : bytes) : bytes := s "/v2/" ++ repo ++ s "/manifests/" ++ dg.
+
+  (* what was created: the descriptor the backend returned for it and the URLs that name it
+     (a mounted blob also by the digest the mount asked for); [urepo] is the repository of the
+     upload that Commit completes *)
+  Definition created_of (urepo : option bytes) (e : ev) : option (desc * list bytes) :=
+    match e with
+    | ECall (PushBlob r _ _) (Ok v) => Some (desc_of v, [blob_location r (d_digest (desc_of v))])
+    | ECall (MountBlob _ r dg) (Ok v) =>
+        Some (desc_of v, [blob_location r dg; blob_location r (d_digest (desc_of v))])
+    | ECall (PushManifest r _ _ _) (Ok v) => Some (desc_of v, [manifest_location r (d_digest (desc_of v))])
+    | ECall (WCommit _ _) (Ok v) =>
+        match urepo with
+        | Some r => Some (desc_of v, [blob_location r (d_digest (desc_of v))])
+        | None => None
+        end
+    | _ => None
+    end.
+
+  (* the place Options.LocationsForDescriptor named, when it is set, was asked and named one *)
+  Definition locs_asked_of (e : ev) : option (bool * desc) :=
+    match e with ELocs m d => Some (m, d) | _ => None end.
+  Definition chosen_location (o : opts) (tr : list ev) : option bytes :=
+    match o_locs o, last_of locs_asked_of tr None with
+    | Some f, Some (m, d) => match f m d with Ok (l0 :: _) => Some l0 | _ => None end
+    | _, _ => None
+    end.
+
+  (* 201: Docker-Content-Digest is the digest of what was created, Location is the place the
+     option chose or else a URL that names what was created *)
+  Definition created_ok (o : opts) (tr : list ev) (loc dcd : option bytes) : bool :=
+    match last_of (created_of (last_of upload_repo_of tr None)) tr None with
+    | Some (d, names) =>
+        option_eqb beqb dcd (Some (d_digest d))
+        && match loc with
+           | Some l => match chosen_location o tr with
+                       | Some l0 => beqb l l0
+                       | None => mem_bytes l names
+                       end
+           | None => false
+           end
     | None => false
     end.
 
@@ -269,18 +372,22 @@ Section Spec.
     | Some (JErr _) => true
     | j =>
         (* created: where it is and what it is *)
-        implb' (st =? 201)%Z (has H_location h && has H_dcd h)
+        implb' (st =? 201)%Z (created_ok o tr (hget H_location h) (hget H_dcd h))
         (* upload accepted / upload status: where to continue and how far it got *)
         && implb' (((st =? 202)%Z && existsb upload_open tr) || (st =? 204)%Z)
-                  (has H_location h && range_value_ok (hget H_range h))
+                  (upload_location_ok tr (hget H_location h) && upload_range_ok tr (hget H_range h))
         (* redirect *)
         && implb' (st =? 307)%Z (has H_location h)
         (* content *)
-        && match last_content tr None with
-           | Some (d, data) =>
+        && match last_content tr with
+           | Some (d, data, asked) =>
+               let dcd_ok := match hget H_dcd h with
+                             | Some v => dcd_value_ok d asked v
+                             | None => o_omit_digest_from_tag_get o
+                             end in
                if (st =? 200)%Z then
                  option_eqb Z.eqb (hnum H_clen h) (Some (d_size d))
-                 && (has H_dcd h || o_omit_digest_from_tag_get o)
+                 && dcd_ok
                  && match data with
                     | Some data => implb' (blen data =? d_size d)%Z (blen (p_body resp) =? d_size d)%Z
                     | None => true
@@ -290,7 +397,7 @@ Section Spec.
                  | Some (s0, e0, size) =>
                      ((size =? d_size d) && (0 <=? s0) && (s0 <=? e0 + 1) && (e0 + 1 <=? size))%Z
                      && option_eqb Z.eqb (hnum H_clen h) (Some (e0 + 1 - s0)%Z)
-                     && has H_dcd h
+                     && match hget H_dcd h with Some v => dcd_value_ok d asked v | None => false end
                      && match data with
                         | Some data => implb' (blen data =? e0 + 1 - s0)%Z (blen (p_body resp) =? e0 + 1 - s0)%Z
                         | None => true
